@@ -8,6 +8,11 @@ From QV Require Import Base.ListX Model.NameWire Spec.NameWireS Spec.NameRepr Pr
 
 Local Open Scope N_scope.
 
+(* every statement below holds for either numbering of the bits of a WKS bit map, except where the parser's
+   own numbering is needed (new_in_wks_runs, wks_runs, rdata_runs: hypothesis on [bo]) *)
+Section Ord.
+Context {bo : BitOrder}.
+
 (* ---- the parser's context for a context of the specification -------------------------------------------------------- *)
 
 Definition ctx_of (x : sctx) : ctx :=
@@ -822,7 +827,7 @@ Lemma fold_max_bound : forall l b, Forall (fun p => p <= b) l -> fold_right N.ma
 Proof. induction 1 as [|x l Hx _ IH]; cbn [fold_right]; lia. Qed.
 
 Lemma new_in_wks_runs (T : bytes -> Prop) addr proto ports p : length addr = 4%nat -> Forall (fun q => q <= 65535) ports ->
-  runs T (new_in_wks addr proto ports) [] p p (addr ++ [proto] ++ wks_bitmap ports).
+  runs T (new_in_wks addr proto ports) [] p p (addr ++ [proto] ++ @wks_bitmap impl_order ports).
 Proof.
   intros Ha Hp. unfold new_in_wks, wks_bitmap, wks_len. destruct ports as [|q ports].
   - cbn [ZfParser.list_max repeat wks_set seq map]. apply mk_rdata_runs. rewrite !app_length, Ha. simpl. lia.
@@ -941,13 +946,16 @@ Proof.
   rewrite (ports_wire_nil fs H). destruct (ports_of fs) eqn:E; [reflexivity|]. rewrite app_nil_r. reflexivity.
 Qed.
 
-Theorem wks_runs x e cs a b c d proto fs p p3 : sctx_good x ->
+Theorem wks_runs x e cs a b c d proto fs p p3 : sctx_good x -> bo = impl_order \/ ports_of fs = [] ->
   fields_ok (x_origin x) true false p cs (VIp4 a b c d :: VProto proto :: fs) = Some p3 -> Forall is_port fs ->
   forallb value_ok fs = true -> N.of_nat (length fs) <= 65535 -> eol_ok p3 e = true ->
   runs (eoft (e_term e)) parse_in_wks_rdata (render_fields cs (VIp4 a b c d :: VProto proto :: fs) ++ render_eol e) p false
        (rdata_wire (AFields (VIp4 a b c d :: VProto proto :: fs))).
 Proof.
-  intros Hx H Hall Hv Hn He. rewrite (wks_wire a b c d proto fs Hall).
+  intros Hx Hord H Hall Hv Hn He. rewrite (wks_wire a b c d proto fs Hall).
+  assert (Ebm : wks_bitmap (ports_of fs) = @wks_bitmap impl_order (ports_of fs)).
+  { destruct Hord as [Eo|Ep]; [rewrite Eo; reflexivity|rewrite Ep; reflexivity]. }
+  rewrite Ebm.
   apply fields_ok_cons in H. destruct H as (q1 & Hs1 & Hf1 & H). pose proof (sep_ok_inv _ _ _ _ Hs1) as [HP1 _].
   apply fields_ok_cons in H. destruct H as (q2 & Hs2 & Hf2 & H). pose proof (sep_ok_inv _ _ _ _ Hs2) as [HP2 _].
   cbn [render_fields]. rewrite <- !app_assoc. unfold parse_in_wks_rdata.
@@ -1022,11 +1030,11 @@ Ltac inv_kinds H fs :=
 
 Ltac split_values Hv := cbn [forallb] in Hv; repeat (apply andb_true_iff in Hv; destruct Hv as [?Hv Hv]).
 
-Theorem rdata_runs x class type dc d e p p3 : sctx_good x ->
+Theorem rdata_runs x class type dc d e p p3 : sctx_good x -> bo = impl_order \/ wks_listed dc d = false ->
   rdata_ok (x_origin x) p class type dc d = Some p3 -> eol_ok p3 e = true ->
   runs (eoft (e_term e)) (parse_rdata (ctx_of x) class type) (render_rdata dc d ++ render_eol e) p false (rdata_wire d).
 Proof.
-  intros Hx H He. apply rdata_ok_inv in H. destruct H as (Hlen & Hfit & Hform).
+  intros Hx Hord H He. apply rdata_ok_inv in H. destruct H as (Hlen & Hfit & Hform).
   unfold parse_rdata. unfold in_types, name_rdata_types, TYPE_NS, TYPE_MD, TYPE_MF, TYPE_CNAME, TYPE_MB, TYPE_MG, TYPE_MR, TYPE_PTR,
     TYPE_A, TYPE_SOA, TYPE_WKS, TYPE_HINFO, TYPE_MINFO, TYPE_MX, TYPE_TXT, TYPE_AAAA, TYPE_SRV, CLASS_IN, CLASS_CH.
   change (existsb (N.eqb type) [2; 3; 4; 5; 7; 8; 9; 12]) with (existsb (N.eqb type) name_types).
@@ -1067,7 +1075,9 @@ Proof.
     { apply Forall_forall. intros f Hf. rewrite forallb_forall in Hports. specialize (Hports f Hf). destruct f; try discriminate Hports. eexists. reflexivity. }
     cbn [forallb] in Hv. apply andb_true_iff in Hv. destruct Hv as [_ Hv]. apply andb_true_iff in Hv. destruct Hv as [_ Hv].
     destruct Hform as [(cs & fs' & -> & [= <-] & Hok)|(z0 & z1 & ic & ws & -> & Hgen)].
-    - eapply wks_runs; eassumption.
+    - eapply wks_runs; try eassumption. destruct Hord as [Eo|Ew]; [left; exact Eo|right].
+      cbn [wks_listed] in Ew. change (ports_of (VIp4 a b c d :: VProto p0 :: ports)) with (ports_of ports) in Ew.
+      destruct (ports_of ports); [reflexivity|discriminate Ew].
     - eapply (validated_runs e); [exact Hgen|exact He|]. rewrite (wks_wire _ _ _ _ _ _ Hall). reflexivity. }
   destruct (type =? 13) eqn:E5.
   { destruct d as [fs|data]; [|discriminate Hfit]. apply andb_true_iff in Hfit. destruct Hfit as [Hv Hk].
@@ -1120,3 +1130,5 @@ Proof.
   destruct Hform as [(cs & fs' & -> & Hd & _)|(z0 & z1 & ic & ws & -> & Hgen)]; [discriminate|].
   eapply (unknown_runs e); eassumption.
 Qed.
+
+End Ord.
